@@ -2,6 +2,9 @@
 package main
 
 import (
+	"io"
+
+	"github.com/sirupsen/logrus"
 	"context"
 	"fmt"
 	"github.com/spf13/viper"
@@ -169,7 +172,8 @@ type tcase struct {
 // filter.<name>.match-metrics / exclude-metrics / match-tags / drop-tags / drop-metric / drop-host).
 func newStage(filters []fspec, static []string, rec *fx.Recorder) *statsd.TagHandler {
 	v := viper.New()
-	var names []string
+	// "ghost" is listed but has no [filter.ghost] block: a leftover name the server warns about and skips
+	names := []string{"ghost"}
 	fm := map[string]any{}
 	for i, f := range filters {
 		n := fmt.Sprintf("f%d", i)
@@ -368,6 +372,7 @@ func seriesFamily() [][]sdesc {
 }
 
 func main() {
+	logrus.SetOutput(io.Discard)
 	res = vrt.Init()
 	if *vrt.ReplayPath != "" {
 		var c tcase
